@@ -289,7 +289,9 @@ class MoveMemrefDims(RewritePattern):
                 dim_op.results[0].replace_all_uses_with(new_dim_op.results[0])
             for_op = find_parent_for_loop(dim_op)
 
-            if is_in_loop(new_dim_op):
+            # an op defined under another loop already dominates this loop (it is used inside it): leave it where it is,
+            # moving it in front of this loop would put it behind its earlier uses
+            if is_in_loop(new_dim_op) and not before_loop(new_dim_op):
                 new_dim_op.detach()
 
             assert for_op is not None
